@@ -241,7 +241,10 @@ class OnlineVariance(object):
         if self.count < 2:
             return np.nan
         else:
-            return self.M2/self.wcount
+            # M2 is a sum of terms that are non-negative in exact
+            # arithmetic; rounding can leave it a few ulp below zero when
+            # all samples (nearly) agree, and its square root was then nan
+            return np.maximum(self.M2, 0.0)/self.wcount
     
     @property
     def sampleVariance(self):
